@@ -1,10 +1,10 @@
 SPECIFICATION Spec
 CONSTANTS
   Fuel = 24
-  TickLimit = 3
-  K = 7
-  Alphabet <- AlphaLoops2
+  TickLimit = 2
+  K = 6
+  Alphabet <- AlphaErrFun
   ItemAlphabet <- NoItems
-  Mode = "c02"
+  Mode = "c10"
 INVARIANT Emit
 CHECK_DEADLOCK FALSE
